@@ -20,3 +20,44 @@ package protocol
 //@   requires c.l <= 20
 //@   ensures [len] len(result) == c.l
 //@   modifies nothing
+
+// ---------------- packet numbers (C05) ----------------
+//@ spec pnwin(l uint8) int64 = ite(l == 1, 256, ite(l == 2, 65536, ite(l == 3, 16777216, 4294967296)))
+
+// RFC 9000 Appendix A.3, written out
+//@ spec pncand(l uint8, largest int64, truncated int64) int64 = ((largest + 1) & ^(pnwin(l) - 1)) | truncated
+//@ spec pndec(l uint8, largest int64, truncated int64) int64 =
+//@      ite(pncand(l, largest, truncated) <= largest + 1 - pnwin(l)/2 && pncand(l, largest, truncated) < 4611686018427387904 - pnwin(l), pncand(l, largest, truncated) + pnwin(l),
+//@      ite(pncand(l, largest, truncated) > largest + 1 + pnwin(l)/2 && pncand(l, largest, truncated) >= pnwin(l), pncand(l, largest, truncated) - pnwin(l), pncand(l, largest, truncated)))
+
+//@ func DecodePacketNumber
+//@   props C05
+//@   arith bv
+//@   requires 1 <= length && length <= 4 && -1 <= largest && largest <= 4611686018427387903 && 0 <= truncated && truncated < pnwin(uint8(length))
+//@   ensures [rfc-a3] result == pndec(uint8(length), int64(largest), int64(truncated))
+//@   modifies nothing
+
+//@ func PacketNumberLengthForHeader
+//@   props C05
+//@   arith bv
+//@   requires -1 <= largestAcked && largestAcked < pn && pn <= 4611686018427387903
+//@   ensures [value] result == ite(pn - largestAcked < 32768, 2, ite(pn - largestAcked < 8388608, 3, 4))
+//@   modifies nothing
+
+// The truncated number on the wire always decodes to the true one, given what the sender knows to be acknowledged
+// (la), for every receiver state (largest) at or above la and within half a window of pn.
+//@ lemma pnRoundTrip
+//@   props C05
+//@   arith bv
+//@   var la PacketNumber
+//@   var largest PacketNumber
+//@   var pn PacketNumber
+//@   assume -1 <= la && la < pn && pn <= 4611686018427387903 && pn - la < 2147483648
+//@   assume la <= largest && largest <= 4611686018427387903
+//@   step l = PacketNumberLengthForHeader(pn, la)
+//@   assume largest - pn < pnwin(uint8(l))/2 - 1
+//@   step d = DecodePacketNumber(l, largest, pn & (pnwin(uint8(l)) - 1))
+//@   show [decodes] d == pn
+
+//@ func (p KeyPhase) Bit
+//@   inline
